@@ -78,6 +78,12 @@ class Real:
                 coro.send(None)
             except StopIteration:
                 pass
+            except RuntimeError:
+                # refused by the group: the task was created but is not a member; get rid of it
+                for t in [t for t, i in self.ids.items() if i == tid]:
+                    t.cancel()
+                    del self.ids[t]
+                raise
         finally:
             asyncio.events._set_running_loop(prev)
             self.loop.create_task = orig
@@ -202,6 +208,16 @@ def run_case(case):
                 if not cand:
                     continue
                 R.go2[cand[act[1] % len(cand)]].set_result(None)
+            elif kind == 'spawn':
+                # somebody outside the group adds a member at this instant (refused once the group has joined)
+                nspawn_ext = sum(1 for l, _ in trace if l[0] == 'spawn' and l[1] >= 2000)
+                new = 2000 + nspawn_ext
+                try:
+                    R.mk_member(new, 'reraise', act[1])
+                    reacts[new] = 'reraise'
+                except RuntimeError:
+                    pass
+                label = ['spawn', new, act[1]]
             elif kind == 'cancelJ':
                 if not started or R.J.done():
                     continue
@@ -250,11 +266,13 @@ def run_case(case):
         # try to add after the join ended
         late = None
         if oracle['join_end'] is not None and oracle['join_end']['entered'] and oracle['join_end']['joined']:
-            try:
-                R.mk_member(5000, 'reraise', False)
-                late = 'added'
-            except RuntimeError:
-                late = 'refused'
+            late = 'refused'
+            for k, dm in enumerate((False, True)):
+                try:
+                    R.mk_member(5000 + k, 'reraise', dm)
+                    late = 'added'
+                except RuntimeError:
+                    pass
         g = R.g
         props = None
         if g.joined:
@@ -266,7 +284,7 @@ def run_case(case):
             props = {'result': safe(lambda: g.result),
                      'exception': safe(lambda: None if g.exception is None else type(g.exception).__name__)}
         res = {'trace': trace, 'props': props, 'join_end': oracle['join_end'], 'late_add': late,
-               'outcomes': {str(i): R.outcome(i) for t, i in R.ids.items() if i not in (0, 5000)},
+               'outcomes': {str(i): R.outcome(i) for t, i in R.ids.items() if i != 0 and i < 5000},
                'completed': R.ids.get(g.completed) if g.completed is not None else None,
                'joined': g.joined, 'spawn_errors': R.spawn_errors}
         # let everything finish so that no task is left behind
@@ -350,6 +368,8 @@ def gen_case(rng, opts=None):
             actions.append(['cancelJ'])
         elif r < 0.96:
             actions.append(['cancelM', rng.randrange(8)])
+        elif r < 0.98:
+            actions.append(['spawn', rng.random() < 0.3])
         else:
             actions.append(['tick'])
     actions += [['start']] + [['tick']] * 3
